@@ -18,6 +18,7 @@ import (
 	"github.com/ucan-wg/go-ucan/pkg/args"
 	"github.com/ucan-wg/go-ucan/pkg/command"
 	"github.com/ucan-wg/go-ucan/pkg/meta"
+	"github.com/ucan-wg/go-ucan/pkg/policy/limits"
 	"github.com/ucan-wg/go-ucan/token/delegation"
 	"github.com/ucan-wg/go-ucan/token/internal/nonce"
 	"github.com/ucan-wg/go-ucan/token/internal/parse"
@@ -227,6 +228,19 @@ func (t *Token) validate() error {
 	if len(t.nonce) < 12 {
 		errs = errors.Join(errs, fmt.Errorf("token nonce too small"))
 	}
+
+	// what cannot be unsealed again is not accepted: the decoder requires a valid command and time bounds
+	// that are whole seconds within the safe integer range
+	if !command.IsValid(string(t.command)) {
+		errs = errors.Join(errs, fmt.Errorf("invalid command: %q", string(t.command)))
+	}
+	safeTime := func(ts *time.Time, fieldname string) {
+		if ts != nil && (ts.Unix() > limits.MaxInt53 || ts.Unix() < limits.MinInt53) {
+			errs = errors.Join(errs, fmt.Errorf("%s: timestamp %d exceeds safe integer bounds", fieldname, ts.Unix()))
+		}
+	}
+	safeTime(t.expiration, "Expiration")
+	safeTime(t.invokedAt, "InvokedAt")
 
 	return errs
 }
